@@ -6,9 +6,8 @@ usage: c19_miri_select.py <domain> [<twdrv>] < all-requests > sample
 Stateless domains: at most K lines per operation token, short lines only, no hash-form sweeps, none
 of the operations that need C/C++ code behind FFI (Miri cannot interpret foreign functions).
 Stateful domains (`demo`): the first N whole sessions that qualify.
-`datafile`: only requests the reader rejects before it decompresses any data item (the crate calls
-zlib through FFI in `read_data`); they are recognised by the model's answer (`err …`), for which the
-driver binary is needed."""
+(An optional model-output filter `model_prefix` — keep only requests whose model answer starts with a
+prefix — needs the driver binary; it is not used at present.)"""
 import subprocess
 import sys
 
@@ -16,7 +15,7 @@ CFG = {
     # hash-form sweeps are skipped everywhere (`hash` in the token) unless `keep_hash`
     "packer": {"k": 20, "maxlen": 240},
     # hc/hd/hrd: sweeps; rd/rc print what the C++ reference answers (a stand-in under Miri)
-    "huffman": {"k": 20, "maxlen": 240, "skip": {"hc", "hd", "hrd", "rd", "rc"}},
+    "huffman": {"k": 12, "maxlen": 240, "skip": {"hc", "hd", "hrd", "rd", "rc"}},
     "packet6": {"k": 20, "maxlen": 240},
     "packet7": {"k": 10, "maxlen": 240},
     # pair/sweep consult the C++ snapshot reference
@@ -35,8 +34,10 @@ CFG = {
     "conn6": {"sessions": 4, "maxlen": 900, "session_start": "new", "maxlines": 160},
     "conn7": {"sessions": 4, "maxlen": 900, "session_start": "new", "maxlines": 160},
     "net": {"sessions": 4, "maxlen": 900, "session_start": "new", "maxlines": 160},
-    "demohl": {"sessions": 4, "maxlen": 900, "skip": {"mutall"}, "session_start": "new", "maxlines": 120},
-    "datafile": {"k": 60, "maxlen": 600, "only": {"open"}, "model_prefix": "err", "candidates": 500},
+    "demohl": {"sessions": 3, "maxlen": 900, "skip": {"mutall"}, "session_start": "new", "maxlines": 120},
+    # zlib: harness-miri replaces the wrapper crate by a pure-Rust inflate for the whole graph
+    "datafile": {"k": 30, "maxlen": 700, "skip": {"hsweep", "sweep"}},
+    "map": {"k": 4, "maxlen": 1000, "skip": {"hsweep", "sweep"}},
 }
 
 
